@@ -2,7 +2,7 @@
 //! (call/return intervals stamped from one atomic counter), and the "birthday" run that keeps a
 //! large number of ids outstanding so that id collisions in store_error actually occur.
 
-use crate::ops::{pathrs_errorinfo, pathrs_errorinfo_free, pathrs_inroot_open, pathrs_inroot_resolve, pathrs_open_root};
+use crate::ops::{pathrs_errorinfo, pathrs_errorinfo_free, pathrs_inroot_mknod, pathrs_inroot_open, pathrs_inroot_resolve, pathrs_open_root, pathrs_proc_open};
 use serde_json::{json, Value};
 use std::ffi::CString;
 use std::sync::atomic::{AtomicU64, Ordering};
@@ -29,6 +29,19 @@ fn fail(kind: &str, t: usize, k: usize) -> (i32, u64) {
             // a non-negative descriptor number that is not open: the failing system call says EBADF
             let p = CString::new(format!("tag-{}-{}-x", t, k)).unwrap();
             (unsafe { pathrs_inroot_resolve(987_654, p.as_ptr()) }, libc::EBADF as u64)
+        }
+        "enosys" => {
+            // sockets cannot be created through mknod: ErrorKind::NotImplemented -> ENOSYS
+            let p = CString::new(format!("tag-{}-{}-x", t, k)).unwrap();
+            let root = unsafe { libc::open(b"/dev/shm\0".as_ptr() as *const _, libc::O_PATH | libc::O_DIRECTORY | libc::O_CLOEXEC) };
+            let r = unsafe { pathrs_inroot_mknod(root, p.as_ptr(), libc::S_IFSOCK | 0o644, 0) };
+            unsafe { libc::close(root) };
+            (r, libc::ENOSYS as u64)
+        }
+        "exdev" => {
+            // a procfs lookup that tries to leave through "..": refused as an attack -> EXDEV
+            let p = CString::new(format!("../tag-{}-{}-x", t, k)).unwrap();
+            (unsafe { pathrs_proc_open(0x091D5E1F, p.as_ptr(), libc::O_RDONLY | libc::O_NOFOLLOW) }, libc::EXDEV as u64)
         }
         "einval_flags" => {
             let p = CString::new(format!("tag-{}-{}-x", t, k)).unwrap();
